@@ -139,6 +139,11 @@ def sib_export(ctx: Ctx) -> List[Ob]:
             ts = sorted(cond_texts(inner(f, eys[0], el)))
             ok = ts in ([f"{flag} or {ev}._parent is not node"], [f"{ev}._parent is not node or {flag}"], [f"not (not {flag} and {ev}._parent is node)"])
             why_e = f"edges are emitted under {ts}"
+            if not ok:
+                # the skipped parent is chosen into a local beforehand (two reaching values): not read by this clause
+                locs_ = {x.id for a_, _p in inner(f, eys[0], el) for x in ast.walk(a_) if isinstance(x, ast.Name)}
+                if any(len([b_ for b_ in ctx.env.scope(f).bindings.get(nm_, []) if b_.kind == "val"]) >= 2 for nm_ in locs_ - {flag, ev, "node"}):
+                    ok = None
         else:
             why_e = f"{len(eys)} yields in the edge loop"
             ok = None if eys else False
@@ -221,6 +226,8 @@ def sib_export(ctx: Ctx) -> List[Ob]:
                 and not_after(ctx, f, sts[0][0], incs[0][0])
             init = [norm(e_["$$v"]) for n_, e_ in find(f"{idx} = $$v", f.node) if not any(n_ is x for x in ast.walk(nl)) and not any(n_ is x for x in ast.walk(el))]
             ok = ok and init == ["1"]
+            if not ok and not incs and any(isinstance(x, ast.Call) and norm(x.func) == "next" for x in ast.walk(nl)):
+                ok = None  # the index comes from an iterator (itertools.count), not from a counter variable
         O(f, "mermaid: every new key gets the next index (numbering starts at 1; the root is 0)", ok, "node numbering broken", nl)
         if tab is not None:
             calls = [c for c in ast.walk(el) if isinstance(c, ast.Call) and norm(c.func) == "edge_mapper"]
